@@ -33,6 +33,10 @@ type requester struct {
 	// rules of its profile.
 	client string
 	name   string
+
+	// How the requester's queries look apart from the question: checking
+	// disabled, an OPT record, DNSSEC OK.
+	cd, opt, do bool
 	msgs   *dnsmsg.Constructor
 	conf   *filter.ConfigClient
 }
@@ -208,6 +212,10 @@ func (w *c12World) ask(st *filterstorage.Default, rq *requester, host string, qt
 		QClass:     dns.ClassINET,
 	}
 	req.DNS.Id = 4711
+	req.DNS.CheckingDisabled = rq.cd
+	if rq.opt {
+		req.DNS.SetEdns0(1232, rq.do)
+	}
 	r, err := f.FilterRequest(context.Background(), req)
 	if err != nil {
 		return "error: " + err.Error()
@@ -239,6 +247,9 @@ func genRequesters(t *kernel.Tape) (rs []*requester) {
 	n := t.Range(2, 4, "requesters")
 	for i := 0; i < n; i++ {
 		rq := &requester{name: fmt.Sprintf("rq%d", i), client: fmt.Sprintf("devrq%d", i)}
+		rq.cd = t.Chance(1, 4, "query-cd")
+		rq.opt = t.Chance(1, 2, "query-opt")
+		rq.do = rq.opt && t.Chance(1, 2, "query-do")
 		rq.msgs = mkConstructor(kernel.Pick(t, modes, "mode"), kernel.Pick(t, []time.Duration{10 * time.Second, 300 * time.Second}, "ttl"))
 		var ids []filter.ID
 		for k := 0; k < 2; k++ {
